@@ -292,3 +292,69 @@ Proof.
   - destruct (invert_sound d g u E) as [c' [Hin' Hu']]. subst u. rewrite (Hu c' Hin'). reflexivity.
   - exfalso. exact (invert_complete d [] c g Hin E).
 Qed.
+
+(* ---------- the byte layout of a format-4 subtable --------------------------------------------------------- *)
+Lemma u16s_at_mid a l b pos n :
+  pos = Z.of_nat (length a) -> n = length l -> forallb is_u16 l = true ->
+  u16s_at (a ++ flat_map be16 l ++ b) pos n = Some l.
+Proof. intros -> -> H. apply u16s_at_written. exact H. Qed.
+
+Lemma u16_at_mid a v b pos : pos = Z.of_nat (length a) -> is_u16 v = true -> u16_at (a ++ be16 v ++ b) pos = Some v.
+Proof.
+  intros -> H. unfold u16_at.
+  change 2%nat with (length (be16 v)). rewrite take_at_app. cbn [be16].
+  f_equal. unfold is_u16 in H. pose proof (Z.div_mod v 256). lia.
+Qed.
+
+(* the body of a format-4 subtable as a writer lays it out: segCountX2, three search fields, end codes, a reserved
+   word, start codes, deltas, range offsets, then the glyph arrays and whatever follows *)
+Definition fmt4_body (x1 x2 x3 pad : Z) (ecs scs idds idrs : list Z) (tail : list Z) : list Z :=
+  (be16 (2 * Z.of_nat (length ecs)) ++ be16 x1 ++ be16 x2 ++ be16 x3) ++ flat_map be16 ecs ++ be16 pad ++
+  flat_map be16 scs ++ flat_map be16 idds ++ flat_map be16 idrs ++ tail.
+
+Lemma fmt4_layout pre x1 x2 x3 pad ecs scs idds idrs tail d :
+  length scs = length ecs -> length idds = length ecs -> length idrs = length ecs ->
+  forallb is_u16 ecs = true -> forallb is_u16 scs = true -> forallb is_u16 idds = true -> forallb is_u16 idrs = true ->
+  2 * Z.of_nat (length ecs) < 65536 ->
+  let f := pre ++ fmt4_body x1 x2 x3 pad ecs scs idds idrs tail in
+  let p := Z.of_nat (length pre) in
+  fmt4 f p d = fmt4_segs f (p + 8 + 6 * Z.of_nat (length ecs) + 2) 0 ecs scs idds idrs d.
+Proof.
+  intros Hs Hd Hr He Hsc Hdd Hrr Hn f p.
+  set (n := length ecs) in *.
+  set (H := be16 (2 * Z.of_nat n) ++ be16 x1 ++ be16 x2 ++ be16 x3).
+  set (E := flat_map be16 ecs). set (S := flat_map be16 scs). set (D := flat_map be16 idds). set (R := flat_map be16 idrs).
+  assert (LH : length H = 8%nat) by reflexivity.
+  assert (LE : length E = (2 * n)%nat) by (unfold E, n; apply flat_map_be16_length).
+  assert (LS : length S = (2 * n)%nat) by (unfold S; rewrite flat_map_be16_length, Hs; reflexivity).
+  assert (LD : length D = (2 * n)%nat) by (unfold D; rewrite flat_map_be16_length, Hd; reflexivity).
+  assert (Hf : f = pre ++ H ++ E ++ be16 pad ++ S ++ D ++ R ++ tail).
+  { unfold f, fmt4_body. fold n H E S D R. rewrite <- ?app_assoc. reflexivity. }
+  unfold fmt4.
+  (* segCountX2 *)
+  assert (U0 : u16_at f p = Some (2 * Z.of_nat n)).
+  { rewrite Hf. unfold H. rewrite <- !app_assoc. apply u16_at_mid; [reflexivity | unfold is_u16; lia]. }
+  assert (T0 : take_at f p 8 = Some H).
+  { rewrite Hf. change 8%nat with (length H). apply take_at_app. }
+  rewrite U0, T0.
+  replace (Z.to_nat (2 * Z.of_nat n / 2)) with n by (rewrite Z.mul_comm, Z.div_mul by lia; lia).
+  assert (A1 : u16s_at f (p + 8) n = Some ecs).
+  { rewrite Hf. rewrite (app_assoc pre H). apply u16s_at_mid; [rewrite app_length; lia | reflexivity | exact He]. }
+  assert (A2 : u16s_at f (p + 8 + 2 * Z.of_nat n + 2) n = Some scs).
+  { rewrite Hf.
+    replace (pre ++ H ++ E ++ be16 pad ++ S ++ D ++ R ++ tail) with ((pre ++ H ++ E ++ be16 pad) ++ S ++ D ++ R ++ tail)
+      by (rewrite <- !app_assoc; reflexivity).
+    apply u16s_at_mid; [rewrite !app_length; cbn [be16 length]; lia | symmetry; exact Hs | exact Hsc]. }
+  assert (A3 : u16s_at f (p + 8 + 2 * (2 * Z.of_nat n) + 2) n = Some idds).
+  { rewrite Hf.
+    replace (pre ++ H ++ E ++ be16 pad ++ S ++ D ++ R ++ tail) with ((pre ++ H ++ E ++ be16 pad ++ S) ++ D ++ R ++ tail)
+      by (rewrite <- !app_assoc; reflexivity).
+    apply u16s_at_mid; [rewrite !app_length; cbn [be16 length]; lia | symmetry; exact Hd | exact Hdd]. }
+  assert (A4 : u16s_at f (p + 8 + 3 * (2 * Z.of_nat n) + 2) n = Some idrs).
+  { rewrite Hf.
+    replace (pre ++ H ++ E ++ be16 pad ++ S ++ D ++ R ++ tail) with ((pre ++ H ++ E ++ be16 pad ++ S ++ D) ++ R ++ tail)
+      by (rewrite <- !app_assoc; reflexivity).
+    apply u16s_at_mid; [rewrite !app_length; cbn [be16 length]; lia | symmetry; exact Hr | exact Hrr]. }
+  rewrite A1, A2, A3, A4.
+  replace (p + 8 + 3 * (2 * Z.of_nat n) + 2) with (p + 8 + 6 * Z.of_nat n + 2) by lia. reflexivity.
+Qed.
